@@ -37,6 +37,7 @@ func (m *Mutex) lock(site string) {
 		if !m.held {
 			m.held = true
 			g.Unlock()
+			zzmc.LockEvent(m, true)
 
 			return
 		}
@@ -58,11 +59,13 @@ func (m *Mutex) TryLock() bool {
 		return false
 	}
 	m.held = true
+	zzmc.LockEvent(m, true)
 
 	return true
 }
 
 func (m *Mutex) Unlock() {
+	zzmc.LockEvent(m, false)
 	g.Lock()
 	if !m.held {
 		g.Unlock()
@@ -104,6 +107,7 @@ func (m *RWMutex) Lock() {
 		if !m.writer && m.readers == 0 {
 			m.writer = true
 			g.Unlock()
+			zzmc.LockEvent(m, true)
 
 			return
 		}
@@ -116,6 +120,7 @@ func (m *RWMutex) Lock() {
 }
 
 func (m *RWMutex) Unlock() {
+	zzmc.LockEvent(m, false)
 	g.Lock()
 	if !m.writer {
 		g.Unlock()
@@ -136,6 +141,7 @@ func (m *RWMutex) RLock() {
 		if !m.writer {
 			m.readers++
 			g.Unlock()
+			zzmc.LockEvent(m, true)
 
 			return
 		}
@@ -148,6 +154,7 @@ func (m *RWMutex) RLock() {
 }
 
 func (m *RWMutex) RUnlock() {
+	zzmc.LockEvent(m, false)
 	g.Lock()
 	if m.readers <= 0 {
 		g.Unlock()
